@@ -1,12 +1,12 @@
 """C02 — emu-mps TDVP dynamics (structural clauses)."""
-from ..rules import pure, drivers, perm, step, tdvp, mpoham
+from ..rules import canon, pure, drivers, perm, step, tdvp, mpoham
 
 META = {
     "title": "emu-mps TDVP runs reproduce the Pulser Hamiltonian dynamics",
     "technique": "formal identity of the single-site MPO term against Pulser's drive Hamiltonian (literal operator tables, sa.ratfun); writer/reader agreement of the MPO automaton channels; static analysis: index-space typing (PERM), inductive step invariant of the driver by "
                  "path-sensitive abstract interpretation, rational splitting coefficients, bath event automata; path conditions of the sweep boundaries; call-order of the driver's init/run loop",
     "design_ref": "DESIGN.md §5 C02, A.1–A.3",
-    "explanation": "HAM-mps: update_H adds, per qubit, [[0, Omega/2 e^(-i phi)], [Omega/2 e^(+i phi), -delta]] (entries evaluated from the Operators tables, compared as formal identities) onto a copy of the noise term, writes term 0 to factors[0][0,:,:,0] and term i to factors[i][1,:,:,0] for every i in range(1, n), and the ten factor builders keep the identity channels (pending 1->1, done 0->0; first site 0->1) and leave that slot alone. PERM: drives, interaction matrix and initial state reach update_H/make_H/self.state in MPS "
+    "explanation": "GAUGE: every QR/LQ move of the orthogonality centre in the MPS read-out routines contracts the triangular factor into the neighbour on the right index (shared with C10/C11/C13). HAM-mps: update_H adds, per qubit, [[0, Omega/2 e^(-i phi)], [Omega/2 e^(+i phi), -delta]] (entries evaluated from the Operators tables, compared as formal identities) onto a copy of the noise term, writes term 0 to factors[0][0,:,:,0] and term i to factors[i][1,:,:,0] for every i in range(1, n), and the ten factor builders keep the identity channels (pending 1->1, done 0->0; first site 0->1) and leave that slot alone. PERM: drives, interaction matrix and initial state reach update_H/make_H/self.state in MPS "
                    "site order. STEP-mps: inductive invariant idx=i, current_time=T[i], target_time=T[i+1], "
                    "Hamiltonian rows=i (base case from class defaults/__init__/init, step by abstract execution "
                    "of sweep_complete→timestep_complete for the three driver classes). TDVP: per-path event "
@@ -50,3 +50,4 @@ def check(ctx):
     mpoham.local_term(ctx)
     mpoham.channels(ctx)
     ctx.floor("HAM-mps", 12)
+    canon.gauge_moves(ctx)   # the values C02 compares are read off moved orthogonality centres
